@@ -22,6 +22,16 @@ def family(name):
         return tuple(_d3(parts[1], parts[2]))
     if parts[0] == 'mix3':
         return tuple(_mix3(parts[1], parts[2]))
+    if parts[0] == 'notraw':
+        # Not(m) / Imply(m, z) for every raw model m of another family (name with '+' for '/'): negation over integer leaves
+        base = family(parts[1].replace('+', '/'))
+        z = L('z')
+        out = []
+        for m in base:
+            if m[0] == 'N' and any(c[0] == 'N' for c in m[4]):
+                out.append(spaces.C('Not', None, [m]))
+                out.append(spaces.C('Imply', None, [m, z]))
+        return tuple(out)
     if parts[0] == 'empty':
         return tuple(_empty())
     if parts[0] == 'atmostneg':
